@@ -68,7 +68,7 @@ func (m *c04mon) sum(prefix []byte, spare int) {
 	}
 	want := append(append([]byte{}, prefix...), ref.SM3(m.shadow)...)
 	if !bytes.Equal(out, want) {
-		m.fail("sum-wrong", hk.D{"msglen": len(m.shadow), "msg": hk.Hex(trunc(m.shadow)), "got": hk.Hex(out), "want": hk.Hex(want), "prefix": len(prefix), "spare": spare})
+		m.fail("sum-wrong", hk.D{"msglen": len(m.shadow), "msg": hk.Hex(zvTrunc(m.shadow)), "got": hk.Hex(out), "want": hk.Hex(want), "prefix": len(prefix), "spare": spare})
 	}
 	if !bytes.Equal(in, prefix) {
 		m.fail("sum-modified-argument", hk.D{"prefix": len(prefix)})
@@ -82,7 +82,7 @@ func (m *c04mon) reset() {
 	m.shadow = m.shadow[:0]
 }
 
-func trunc(b []byte) []byte {
+func zvTrunc(b []byte) []byte {
 	if len(b) > 256 {
 		return b[:256]
 	}
@@ -216,7 +216,7 @@ func TestVerifC04(t *testing.T) {
 		m.sum(nil, 0)
 		m.sum(nil, 0)
 		m.checkKept()
-		r.Eval(fmt.Sprintf("hist:final%%64=%d,ops=%s", len(m.shadow)%64, compress(pat)))
+		r.Eval(fmt.Sprintf("hist:final%%64=%d,ops=%s", len(m.shadow)%64, zvCompress(pat)))
 		if i == 0 {
 			r.Sample(hk.D{"kind": "random-history", "history": m.hist})
 		}
@@ -305,7 +305,7 @@ func TestVerifC04(t *testing.T) {
 						// and with bytes already buffered (mid-block state)
 						rest = rng.Bytes(rng.Pick([]int{1, 55, 56, 63}))
 					}
-					obj, okInj := injectSM3(h, rest, 64*blocks+uint64(len(rest)))
+					obj, okInj := zvInjectSM3(h, rest, 64*blocks+uint64(len(rest)))
 					if !okInj {
 						r.Class("trivial:state-injection-not-applicable-on-this-layout")
 						continue
@@ -335,7 +335,7 @@ func TestVerifC04(t *testing.T) {
 						bad = true
 					}
 					if bad {
-						r.Violation("sum-wrong-from-injected-chaining-value", hk.D{"chaining_value": fmt.Sprintf("%08x", h), "absorbed_blocks": blocks, "history": hist, "rest": hk.Hex(trunc(rest))})
+						r.Violation("sum-wrong-from-injected-chaining-value", hk.D{"chaining_value": fmt.Sprintf("%08x", h), "absorbed_blocks": blocks, "history": hist, "rest": hk.Hex(zvTrunc(rest))})
 					}
 					cls := "random"
 					if si < 27 {
@@ -368,7 +368,7 @@ func TestVerifC04(t *testing.T) {
 				for j := range h {
 					h[j] = uint32(rng.Uint64())
 				}
-				obj, okInj := injectSM3(h, nil, cnt)
+				obj, okInj := zvInjectSM3(h, nil, cnt)
 				if !okInj {
 					r.Class("trivial:state-injection-not-applicable-on-this-layout")
 					continue
@@ -401,7 +401,7 @@ func TestVerifC04(t *testing.T) {
 					bad = true
 				}
 				if bad {
-					r.Violation("sum-wrong-from-injected-byte-count", hk.D{"chaining_value": fmt.Sprintf("%08x", h), "absorbed_bytes": cnt, "history": hist, "rest": hk.Hex(trunc(rest))})
+					r.Violation("sum-wrong-from-injected-byte-count", hk.D{"chaining_value": fmt.Sprintf("%08x", h), "absorbed_bytes": cnt, "history": hist, "rest": hk.Hex(zvTrunc(rest))})
 				}
 				bl := 0
 				for v := cnt; v > 0; v >>= 1 {
@@ -428,7 +428,7 @@ func TestVerifC04(t *testing.T) {
 				got := h.Sum(nil)
 				one := SumSM3(msg)
 				if want := ref.SM3(msg); !bytes.Equal(got, want) || !bytes.Equal(one[:], want) {
-					r.Violation("digest-wrong-on-block-with-vanishing-aggregate:"+kind, hk.D{"msg": hk.Hex(trunc(msg)), "msglen": len(msg), "split": split, "got": hk.Hex(got), "want": hk.Hex(want)})
+					r.Violation("digest-wrong-on-block-with-vanishing-aggregate:"+kind, hk.D{"msg": hk.Hex(zvTrunc(msg)), "msglen": len(msg), "split": split, "got": hk.Hex(got), "want": hk.Hex(want)})
 					return
 				}
 			}
@@ -519,7 +519,7 @@ func TestVerifC04(t *testing.T) {
 		n := rng.Intn(5000)
 		data := rng.Bytes(n)
 		h := New()
-		cnt, err := io.Copy(h, &chunkReader{data: data, rng: rng})
+		cnt, err := io.Copy(h, &zvChunkReader{data: data, rng: rng})
 		if err != nil || cnt != int64(n) {
 			r.Violation("io.Copy-through-hash-fails", hk.D{"n": n, "copied": cnt, "err": fmt.Sprint(err)})
 		}
@@ -599,7 +599,7 @@ func TestVerifC04(t *testing.T) {
 }
 
 // compress turns an op pattern into its shape (runs collapsed).
-func compress(p string) string {
+func zvCompress(p string) string {
 	out := []byte{}
 	for i := 0; i < len(p); i++ {
 		if i == 0 || p[i] != p[i-1] {
@@ -612,12 +612,12 @@ func compress(p string) string {
 	return string(out)
 }
 
-type chunkReader struct {
+type zvChunkReader struct {
 	data []byte
 	rng  *hk.RNG
 }
 
-func (c *chunkReader) Read(p []byte) (int, error) {
+func (c *zvChunkReader) Read(p []byte) (int, error) {
 	if len(c.data) == 0 {
 		return 0, io.EOF
 	}
